@@ -114,6 +114,8 @@ class PathResolver(Resolver):
                 result = result.resolve(nobuiltin=True)
         except PathResolver.BadPath:
             log.error('path: "%s", not-found' % path)
+            # Do not hand back the part of the path found so far.
+            result = None
         return result
 
     def root(self, parts):
